@@ -1,12 +1,16 @@
 #!/bin/bash
 # /verif/check.sh <Cnn> <quick|thorough>   |   /verif/check.sh replay <file>
 # Rebuilds the checker against /repo's current working tree, then runs it.
+#   VERIF_OVERLAY=<overlay.json>  build with go build -overlay (self-mutation runs)
+#   VERIF_COVER=0|1               statement coverage of the anchored files in the evidence
+#                                 (default: on for thorough, off for quick)
 set -u
 cd "$(dirname "$0")"
 export VERIF_DIR="$(pwd)"
 export GOFLAGS=-mod=mod GOPROXY=off GOSUMDB=off GOTOOLCHAIN=local CGO_ENABLED=1
 export GOCACHE="${VERIF_GOCACHE:-$VERIF_DIR/.gocache}"
 mkdir -p bin work evidence replays
+cp -f /repo/go.sum mc/go.sum 2>/dev/null || true
 OV=()
 if [ -n "${VERIF_OVERLAY:-}" ]; then OV=(-overlay "$VERIF_OVERLAY"); fi
 build() {
@@ -15,10 +19,25 @@ build() {
 build_race() {
   (cd mc && go build -race "${OV[@]}" -o ../bin/vmc-race . ) || { echo "BUILD FAILED (race)" >&2; exit 3; }
 }
+build_cover() {
+  (cd mc && go build -cover -coverpkg=github.com/emirpasic/gods/v2/...,verif/mc "${OV[@]}" -o ../bin/vmc-cover . ) || { echo "BUILD FAILED (cover)" >&2; exit 3; }
+}
 case "${1:-}" in
   replay) build; exec ./bin/vmc replay "$2" ;;
-  build) build; build_race; exit 0 ;;
-  C18) build; build_race; exec ./bin/vmc check "$1" "${2:-quick}" ;;
-  C*) build; exec ./bin/vmc check "$1" "${2:-quick}" ;;
+  build) build; build_race; build_cover; exit 0 ;;
+  C*)
+    prop="$1"; tier="${2:-${VERIF_TIER:-quick}}"
+    build
+    [ "$prop" = C18 ] && build_race
+    cover="${VERIF_COVER:-}"
+    if [ -z "$cover" ]; then if [ "$tier" = thorough ]; then cover=1; else cover=0; fi; fi
+    if [ "$cover" = 1 ]; then
+      build_cover
+      export VERIF_COVERDIR="$VERIF_DIR/work/cov.$prop"
+      rm -rf "$VERIF_COVERDIR"; mkdir -p "$VERIF_COVERDIR"
+    fi
+    ./bin/vmc check "$prop" "$tier"; rc=$?
+    [ -n "${VERIF_COVERDIR:-}" ] && rm -rf "$VERIF_COVERDIR"
+    exit $rc ;;
   *) echo "usage: check.sh <Cnn> <quick|thorough> | replay <file> | build" >&2; exit 2 ;;
 esac
